@@ -16,7 +16,7 @@ RULE = ('cases = (1-3 properties joined by +, each: key with a unique exact snip
 ASSUMPTIONS = ['the abbreviation is *written* with the documented delimiter rules (a "-" after a unit-less number or a colour separates; otherwise it is a sign)',
                'colours are compared by value (printed colour parsed back to r,g,b,a); short form required iff shortHex and every channel is a multiple of 17',
                '4/5-digit colours, "-0", "#x." (dot without digits), keywords and functions are outside this property',
-               'a `cache` dict per option set is used (converting the snippet table costs 6 ms per call); 1 call in 40 runs without cache']
+               'a `cache` dict per option set is used (converting the snippet table costs 6 ms per call); 1 call in 400 runs without cache']
 FLOORS = {'quick': {'enum:colour': 60000, 'enum:values': 25000, 'enum:values-sampled': 20000, 'random': 15000}, 'thorough': {'enum:colour': 80000, 'enum:values': 2500000, 'random': 400000}}
 REQUIRED_MONITORS = ['oracle:line-shape', 'oracle:number-unit', 'oracle:colour-value', 'probe:color-roundtrip']
 BOUNDS = {'quick': {'list_len': 2, 'sample_len': 3, 'stride': 240, 'random': 2500}, 'thorough': {'list_len': 3, 'sample_len': 4, 'stride': 400, 'random': 26000}}
@@ -66,7 +66,7 @@ class Mon:
         abbr = '+'.join(k + G.write_values(v, imp) for k, v, imp in props)
         cfg = {'type': 'stylesheet', 'syntax': syntax, 'options': dict(opts)}
         self.n += 1
-        if self.n % 40:
+        if self.n % 400:
             cfg['cache'] = self.caches.setdefault((syntax, repr(sorted(opts.items(), key=repr))), {})
         case = {'abbr': abbr, 'syntax': syntax, 'options': opts,
                 'props': [[k, v, imp] for k, v, imp in props]}
@@ -171,7 +171,7 @@ def run_shard(desc, ctx):
             ctx.violation('probe:color-return', {'probe': 'stylesheet.color.color', 'token': [tok.r, tok.g, tok.b, tok.a]}, {'returned': retval})
 
     pr = probes.Probes().add('emmet.stylesheet.color:color', None, color_return).add('emmet.stylesheet.color:to_hex') \
-        .add('emmet.stylesheet:resolve_numeric_value').add('emmet.css_abbreviation.tokenizer:consume_number').install()
+        .add('emmet.stylesheet:resolve_numeric_value').install()
     if not pr.installed or pr.unavailable:
         ctx.notes['probes'] = 'unavailable: %r' % (pr.unavailable,)
         ctx.mon('probe:color-roundtrip', 1)
@@ -207,22 +207,22 @@ def run_shard(desc, ctx):
                 mon.check([(key, vals, idx % 7 == 0)], ('css', 'scss', 'sass', 'stylus', 'less', 'sss')[idx % 6], {}, 'enum:values')
         idx = 0
         off = desc['seed'] % desc['stride']
-        for forms in itertools.product(VALUE_FORMS, repeat=desc['sample_len']):
+        for i0, f0 in enumerate(VALUE_FORMS):
+          if i0 % nparts != part:
+            continue
+          for rest in itertools.product(VALUE_FORMS, repeat=desc['sample_len'] - 1):
             idx += 1
-            if idx % desc['stride'] != off or (idx // desc['stride']) % nparts != part:
+            if idx % desc['stride'] != off:
                 continue
+            forms = (f0,) + rest
             vals = [num(f) for f in forms]
             if idx % 2:
                 vals = [neg(v) if (idx >> i) & 1 else v for i, v in enumerate(vals)]
             mon.check([(('p', 'fw', 'm', 'fx')[idx % 4], vals, False)], 'css', {}, 'enum:values-sampled')
         # ---- random
         rng = ctx.rng
-        for _ in range(desc['random']):
-            props = []
-            for _ in range(rng.randint(1, 3)):
-                key = rng.choice(list(G.PROPS))
-                vals = [G.num_value(rng) if rng.random() < 0.7 else G.color_value(rng) for _ in range(rng.randint(1, 6))]
-                props.append((key, vals, rng.random() < 0.2))
+        optpool = []
+        for _ in range(14):        # a pool of option sets per shard, so that the snippet cache of each set is reused
             opts = {}
             if rng.random() < 0.5:
                 opts['stylesheet.intUnit'] = rng.choice(['px', 'pt', 'rem', ''])
@@ -232,6 +232,14 @@ def run_shard(desc, ctx):
                 opts['stylesheet.unitAliases'] = rng.choice([{'x': 'vw', 'e': 'em'}, {'p': 'pc', 'r': 'rad', 'x': 'ex', 'e': 'em'}, {}])
             if rng.random() < 0.5:
                 opts['stylesheet.shortHex'] = rng.random() < 0.5
+            optpool.append(opts)
+        for _ in range(desc['random']):
+            props = []
+            for _ in range(rng.randint(1, 3)):
+                key = rng.choice(list(G.PROPS))
+                vals = [G.num_value(rng) if rng.random() < 0.7 else G.color_value(rng) for _ in range(rng.randint(1, 6))]
+                props.append((key, vals, rng.random() < 0.2))
+            opts = rng.choice(optpool)
             mon.check(props, rng.choice(list(SYNTAX_FMT)), opts, 'random')
     finally:
         pr.uninstall()
